@@ -56,7 +56,14 @@ def cases(draw):
         if rel == "vsl-neutral":
             state[tgt]["v_ctrl"] = [math.inf] * len(sub)
         else:
-            state[tgt]["v_ctrl"] = [draw(fl(0, 1.2 * l["v_free"])) for _ in sub]
+            # limits anywhere in [0, 1.2 v_free], or close to the segment's own equilibrium speed (where the
+            # compliance factor decides whether the limit binds)
+            from lib import refmodel as _rm
+
+            state[tgt]["v_ctrl"] = [
+                (_rm.veq(max(state[tgt]["rho"][k_], 0.0), l) * draw(pos(0.6, 1.15))) if draw(st.booleans()) else draw(fl(0, 1.2 * l["v_free"]))
+                for k_ in sub
+            ]
     else:
         if rel == "main-inf":
             cands = [o for o in sp["origins"] if not S.in_links(sp, o["node"])] or None
